@@ -32,10 +32,26 @@ def run(R):
             rb = bytes(R.rng.randrange(256) for _ in range(n))
             gops.append("G rn %s 0 %s %d 192" % (hx(h), hx(rb), n)); gmeta.append((m, 0, n, "rn-fullhash", h))
             gops.append("G rn %s 0 %s %d 192" % (hx(GS.TAGS[m]), hx(rb), n)); gmeta.append((m, 0, n, "rn-tag", GS.TAGS[m]))
+    # "a deterministic function of (prefix, count, random bytes)": the bytes the caller's buffer holds BEYOND nrbytes are not part of the random
+    # input - the same call with two different continuations of the buffer must give one answer (seeded/C10d: a writer that reads 8 bytes where it
+    # was given 6).  The harness passes the whole hex string as the buffer and nrbytes as the count; the model sees the first nrbytes only.
+    tops = []
+    for m, pfx in GS.TAGS.items():
+        for n in ([0, 1, 2, 3, 4, 5, 6, 7, 8, 9, 11, 13, 14, 15, 16, 17, 31, 33, 63] if quick else list(range(0, 70))):
+            rb = bytes(R.rng.randrange(256) for _ in range(n))
+            t1 = bytes(R.rng.randrange(256) for _ in range(24)); t2 = bytes(b ^ 0xff for b in t1)
+            tops.append(("G rn %s 0 %s %d 192" % (hx(pfx), hx(rb + t1), n), "G rn %s 0 %s %d 192" % (hx(pfx), hx(rb + t2), n), m, n))
+    tl = R.run_impl([o for a, b, _, _ in tops for o in (a, b)])
+    tail_bad = []
+    for i, (a, b, m, n) in enumerate(tops):
+        fa, fb = fields(tl[2 * i]), fields(tl[2 * i + 1])
+        if (fa.get("ret"), fa.get("errno")) != (fb.get("ret"), fb.get("errno")):
+            tail_bad.append((a + " ; " + b, "%s: with nrbytes = %d the result depends on what the buffer holds beyond the random bytes: %s vs %s (not a function of "
+                             "(prefix, count, random bytes); the writer reads past nrbytes)" % (m, n, fa.get("ret"), fb.get("ret")), tl[2 * i]))
     il, ml, _ = R.run_pair(gops)
     def proj(op, a, b): return None if (a.get("ret"), a.get("errno")) == (b.get("ret"), b.get("errno")) else "gensalt result differs"
     diffs = compare(R, gops, il, ml, proj, "gensalt")
-    bad = []
+    bad = list(tail_bad)
     # oracle part 1: properties of the generated string, agreement of the entry points
     byreq = {}
     bigreq = {}
